@@ -87,7 +87,7 @@ fn load(path: &str) -> String {
     let copy = data.clone().clone();
     for item in copy.lines() {
         let s = other.clone();
-        println!("{}{}", s, item);
+        println!("{}{}{}", s, item, other.len());
     }
     data
 }
